@@ -31,7 +31,6 @@ Print Assumptions C14val_int_float_exact_iff.
 
 Theorem C14val_int_float_exact_small : forall z, Z.abs z <= 2 ^ 53 -> f2z (z2f z) = Some z.
 Proof. exact z2f_exact_small_l. Qed.
-Print Assumptions C14val_int_float_exact_small.
 
 (* ... and 2^53 + 1 is the first integer that does not survive: it arrives as 2^53 *)
 Example C14val_int_float_refuted :
@@ -50,7 +49,6 @@ Proof. vm_compute. repeat split. Qed.
 Theorem C14val_forward_partial : forall a b x, a <> b -> valid_of a x = true -> kf_route a b (view_of x) = false ->
   valid_of b (conv a b x) = true /\ pres (view_of x) (view_of (conv a b x)) = true.
 Proof. exact forward_kf_l. Qed.
-Print Assumptions C14val_forward_partial.
 
 (* ---------- there and back, every ordered pair ---------- *)
 (* FULL STATEMENT (false on the unchanged tree inside kf_route):
@@ -68,7 +66,6 @@ Theorem C14val_roundtrip_partial_exact : forall a b x, a <> b -> valid_of a x = 
   valid_of b (conv a b x) = true /\ pres (view_of x) (view_of (conv a b x)) = true /\
   valid_of a (conv b a (conv a b x)) = true /\ pres (view_of x) (view_of (conv b a (conv a b x))) = true.
 Proof. exact roundtrip_l. Qed.
-Print Assumptions C14val_roundtrip_partial_exact.
 
 (* EXACT CHARACTERISATION.  Outside the empty-table domain every round trip is preserved IF AND ONLY IF the table is outside
    the sharp loss domain of its route -- so kf_route_exact is not merely sufficient, it is the set of tables the unchanged
@@ -83,7 +80,6 @@ Theorem C14val_forward_preserved_iff : forall a b x, a <> b -> valid_of a x = tr
   (b = FDict -> kf_empty (view_of x) = false) ->
   (pres (view_of x) (view_of (conv a b x)) = true <-> (to_pandas b && kf_widening_exact (view_of x)) = false).
 Proof. exact forward_iff_l. Qed.
-Print Assumptions C14val_forward_preserved_iff.
 
 (* ... because what a round trip does is known exactly: up to null/NaN (`same`) the result is the source view itself, or,
    when pandas is on the route, the source view with every integer of every column that contains a null replaced by its
@@ -93,13 +89,11 @@ Theorem C14val_roundtrip_is_widening : forall a b x, a <> b -> valid_of a x = tr
   valid_of a (conv b a (conv a b x)) = true /\
   same (expected (uses_pandas a b) (view_of x)) (view_of (conv b a (conv a b x))) = true.
 Proof. exact roundtrip_same_l. Qed.
-Print Assumptions C14val_roundtrip_is_widening.
 
 Theorem C14val_forward_is_widening : forall a b x, a <> b -> valid_of a x = true ->
   (b = FDict -> kf_empty (view_of x) = false) ->
   valid_of b (conv a b x) = true /\ same (expected (to_pandas b) (view_of x)) (view_of (conv a b x)) = true.
 Proof. exact forward_same_l. Qed.
-Print Assumptions C14val_forward_is_widening.
 
 Theorem C14val_kf_domains_nested : forall a b v, kf_route a b v = false -> kf_route_exact a b v = false.
 Proof. exact kf_route_exact_in. Qed.
@@ -124,7 +118,6 @@ Theorem C14val_names_and_row_count : forall a b x, a <> b -> valid_of a x = true
   (b = FDict -> kf_empty (view_of x) = false) ->
   valid_of b (conv a b x) = true /\ shape (view_of (conv a b x)) = shape (view_of x).
 Proof. exact shape_l. Qed.
-Print Assumptions C14val_names_and_row_count.
 
 (* pres is an honest "preserved": reflexive, transitive, and it fixes names and the number of cells of every column;
    it is positional, so the ORDER of rows is part of it *)
@@ -156,7 +149,6 @@ Print Assumptions C14val_schema_check_rejects_iff.
 Theorem C14val_dict_view_complete : forall rows r k v, valid_d rows = true -> In r rows -> In (k, v) r ->
   exists cs, In (k, cs) (view_d rows) /\ In v cs.
 Proof. exact view_d_complete_l. Qed.
-Print Assumptions C14val_dict_view_complete.
 
 (* why the check is needed: pa.Table.from_pylist alone invents a null for a missing key and drops an extra key;
    a different key ORDER is fine (cells are looked up by name) *)
@@ -171,7 +163,6 @@ Proof. vm_compute. repeat split. Qed.
 (* ---------- T1: on the registry of the working tree the step loop runs exactly these conversions ---------- *)
 Theorem C14val_installed_route : forall a b x, a <> b -> route_res a b x = TOk anytable (conv a b x).
 Proof. exact installed_route_l. Qed.
-Print Assumptions C14val_installed_route.
 
 (* C14_installed_roundtrip with its bijection hypothesis replaced by the value model: for the route
    TransformFrameworkStep.transform takes on the installed registry and the route it takes back *)
@@ -199,3 +190,30 @@ Example C14val_example :
            [("i"%string, VNull); ("f"%string, VFloat (S754_zero true)); ("s"%string, VNull); ("b"%string, VBool true); ("n"%string, VNull)]] /\
   pres (view_of ex_rows) (view_of (conv FPandas FDict (conv FDict FPandas ex_rows))) = true.
 Proof. vm_compute. repeat split. Qed.
+
+(* ---------- one traversal for everything above (a Print Assumptions per theorem walks the whole closure again, ~0.6 s
+   each; the headline theorems have their own) ---------- *)
+Definition C14val_all := (C14val_int_float_exact_iff,
+  C14val_int_float_exact_small,
+  C14val_int_float_refuted,
+  C14val_forward_partial,
+  C14val_roundtrip_partial,
+  C14val_roundtrip_partial_exact,
+  C14val_roundtrip_preserved_iff,
+  C14val_forward_preserved_iff,
+  C14val_roundtrip_is_widening,
+  C14val_forward_is_widening,
+  C14val_kf_domains_nested,
+  C14val_roundtrip_refuted,
+  C14val_names_and_row_count,
+  C14val_pres_refl,
+  C14val_pres_trans,
+  C14val_pres_shape,
+  C14val_pres_is_ordered_and_strict,
+  C14val_schema_check_rejects_iff,
+  C14val_dict_view_complete,
+  C14val_schema_check_needed,
+  C14val_installed_route,
+  C14val_installed_roundtrip,
+  C14val_example).
+Print Assumptions C14val_all.
